@@ -5,7 +5,7 @@
    stepping; the other operations by the correspondence run (per-identity ledger on both sides). *)
 From Coq Require Import ZArith List Bool Lia.
 From MV Require Import Ast Eval Scalar Machine Model Policy.
-From MV.Proofs Require Import Arith Logic Prim View OpsLocal Guards Grow Drops DrainIt CapHistory Core Refine Life IntoIt Clone Append SplitOff DrainAbs.
+From MV.Proofs Require Import Arith Logic Prim View OpsLocal Guards Grow Drops DrainIt CapHistory Core Refine Life IntoIt Clone Append SplitOff DrainAbs IntoAbs.
 Import ListNotations.
 Open Scope Z_scope.
 
@@ -231,3 +231,23 @@ Theorem C02_drain_every_element_in_one_place :
   post (drain_whole cfg ncap v bs be steps tmp s) (fun r s' => r = fst (cursor w steps) /\ Q s') Q.
 Proof. exact drain_abs. Qed.
 Print Assumptions C02_drain_every_element_in_one_place.
+
+(* into_iter() end to end: any stepping from either end, the caller takes what was yielded, the
+   iterator is dropped under ANY set of panicking destructors: every element of the vector ends in
+   exactly one place (yielded = with the caller, the rest destroyed once), the vector's name is gone,
+   the block is dead *)
+Theorem C02_into_iter_every_element_in_one_place :
+  forall cfg, cfg_ok cfg -> needs_drop cfg = true ->
+  forall s v b bl steps,
+  vec_at s v b bl -> block_ok cfg bl -> owned s bl ->
+  let l := velems bl in
+  let Q := fun s' =>
+    (forall x, In x (somes (fst (cursor l steps))) -> ledger s' x = Out) /\
+    (forall x, In x (snd (cursor l steps)) -> ledger s' x = Dropped) /\
+    (forall x, ~ In x l -> ledger s' x = ledger s x) /\ next_elem s' = next_elem s /\
+    nth_error (vecs s') v = Some None /\
+    (exists bl', nth_error (heap s') b = Some (kill bl')) /\
+    exists evs, events s' = EvDealloc (b_size bl) (b_align bl) :: evs in
+  post (into_whole cfg v steps s) (fun r s' => r = fst (cursor l steps) /\ Q s') Q.
+Proof. exact into_abs. Qed.
+Print Assumptions C02_into_iter_every_element_in_one_place.
